@@ -54,6 +54,7 @@ type Violation struct {
 	Label   string
 	Pos     string
 	Inputs  []ReplayInput
+	Alt     [][]ReplayInput // further models of the same path (paths depending on uninterpreted functions)
 	Trace   []Decision
 }
 
